@@ -383,6 +383,14 @@ def check_reject_vec(case, ctx):
     mk2 = bad_array(kind, base, pos)
     if mk2 is not None:
         must_reject(ctx, "reject/QuaternionArray", lambda: ahrs.QuaternionArray(mk2()), {"kind": kind})
+    # the quaternion route of the matrix constructor, one quaternion and a stack of them
+    from ahrs.common.dcm import DCM
+    if mk is not None and kind != "rank2":       # (a 2-D array is a stack of quaternions for this constructor)
+        must_reject(ctx, "reject/DCM(q=)", lambda: DCM(q=mk()), {"kind": kind})
+    if mk2 is not None and kind != "rank1_for_array":
+        must_reject(ctx, "reject/DCM(q=stack)", lambda: DCM(q=mk2()), {"kind": kind})
+        if kind == "zero_row":
+            must_reject(ctx, "reject/DCM(q=stack)", lambda: DCM(q=np.zeros((1, 4))), {"kind": "one zero row"})
 
 
 def bad_matrix(p):
